@@ -127,6 +127,29 @@ func (m *coreMon) check(op string, res string, cur *coreSnap) {
 		m.prev = cur
 		return
 	}
+	// ---- C18: genesis export / import
+	if f[0] == "reimport" {
+		if res != "ok" {
+			m.violate("C18/import/exported-genesis-rejected", "InitChainer failed on the exported state: "+trunc200(m.h.lastImport))
+		} else {
+			if a, b := prev.render("x"), cur.render("x"); a != b {
+				m.violate("C18/queries/core-observation-differs", diffFields(a, b))
+			}
+			if li := m.h.lastImport; li != "" {
+				sig := "C18/reexport/genesis-differs"
+				if strings.HasPrefix(li, "reexport ") {
+					sig = "C18/reexport/" + strings.SplitN(strings.TrimPrefix(li, "reexport "), ".", 2)[0] + "-genesis-differs"
+				} else if strings.HasPrefix(li, "invariant") {
+					sig = "C18/invariants/broken-after-import"
+				} else if strings.HasPrefix(li, "supply") {
+					sig = "C18/bank/supply-differs"
+				}
+				m.violate(sig, trunc200(li))
+			}
+		}
+		m.prev = cur
+		return
+	}
 	// ---- rejected operation: nothing may change
 	if res != "ok" && f[0] != "begin" && f[0] != "end" {
 		if prev.render("x") != cur.render("x") {
@@ -456,6 +479,10 @@ func (c *coreGen) pickActor() int { return c.g.Intn(c.h.p.NActors) }
 // next produces the next op line from the current real state.
 func (c *coreGen) next(s *coreSnap, inBlock *bool, step int) string {
 	g, p := c.g, c.h.p
+	if !*inBlock && c.focus == "C18" && step > 8 && g.Chance(30) {
+		c.r.Hit("reimport-at-block-boundary")
+		return "reimport"
+	}
 	if !*inBlock {
 		*inBlock = true
 		dt := []int64{1000000000, 6000000000, 500000000, 13000000000}[g.Intn(4)]
@@ -777,9 +804,11 @@ func coreRunTrace(t *testing.T, r *Run, lines []string) {
 	r.Trace()
 }
 
-func TestCore(t *testing.T) {
+func TestCore(t *testing.T) { runCore(t, "Core") }
+
+func runCore(t *testing.T, id string) {
 	focus := os.Getenv("CORE_FOCUS")
-	r := NewRun(t, "Core")
+	r := NewRun(t, id)
 	defer r.Close()
 	if lines := ReplayLines(); lines != nil {
 		for _, tr := range SplitTraces(lines) {
